@@ -5,7 +5,7 @@ use rand::{rngs::SmallRng, seq::SliceRandom, Rng, SeedableRng};
 use serde_json::{json, Value};
 use std::io::Write;
 
-pub const CLASSES: [&str; 9] = ["empty_or_tiny", "all_equal", "random", "text", "skewed", "skewed_match", "periodic", "mixed", "runs"];
+pub const CLASSES: [&str; 10] = ["empty_or_tiny", "all_equal", "random", "text", "skewed", "skewed_match", "periodic", "mixed", "runs", "skewed_unique"];
 
 pub fn gen_input(class: &str, len: usize, rng: &mut SmallRng) -> Vec<u8> {
     match class {
@@ -25,6 +25,31 @@ pub fn gen_input(class: &str, len: usize, rng: &mut SmallRng) -> Vec<u8> {
         "skewed" => {
             // skewed byte distribution without long matches
             (0..len).map(|_| (rng.gen::<f64>().powi(3) * 60.0) as u8).collect()
+        }
+        "skewed_unique" => {
+            // skewed byte distribution and no repeated 5-byte substring: every byte stays a literal, Huffman pays off
+            let mut seen = std::collections::HashSet::<[u8; 5]>::new();
+            let mut v: Vec<u8> = Vec::with_capacity(len);
+            while v.len() < len {
+                let mut b = (rng.gen::<f64>().powi(2) * 200.0) as u8;
+                for _ in 0..300 {
+                    if v.len() < 4 {
+                        break;
+                    }
+                    let n = v.len();
+                    let g = [v[n - 4], v[n - 3], v[n - 2], v[n - 1], b];
+                    if !seen.contains(&g) {
+                        break;
+                    }
+                    b = b.wrapping_add(1 + (rng.gen::<u8>() % 7));
+                }
+                if v.len() >= 4 {
+                    let n = v.len();
+                    seen.insert([v[n - 4], v[n - 3], v[n - 2], v[n - 1], b]);
+                }
+                v.push(b);
+            }
+            v
         }
         "skewed_match" => {
             let mut v: Vec<u8> = (0..len).map(|_| (rng.gen::<f64>().powi(3) * 60.0) as u8).collect();
